@@ -32,7 +32,7 @@ def main():
     try:
         lean = {}
         if not a.no_lean:
-            ok, log, secs = V.lean_build()
+            ok, log, secs = V.lean_build(prop)
             lean.update(build_ok=ok, build_log=log, build_s=round(secs, 1))
             lean["source_hits"] = V.source_audit()
             if ok:
